@@ -535,7 +535,7 @@ func c10Eff(f c10Fault) string {
 }
 
 func runC10(c *evid.Ctx) {
-	c.Rule("for each generated adaptive workload the golden run numbers every VFS/MetaStore call; the workload is then re-executed once per (call, before-effect | after-effect (the write/sync/create/delete/commit happened but an error is returned), once | sticky within the call | persistent over the next 1-4 API calls) with that call failing, continues with further successful operations, and ends with a clean reopen; oracle: in-process acknowledged entries intact and failed appends invisible after every step, after the reopen the state equals the model under some applied/not-applied assignment of the calls that returned errors; thorough adds pairs of failing calls; plus directed scripts of shrinking retries (two StoreLogs calls for the same indexes fail on Sync / WriteAt, a third, shorter one succeeds; payload sizes enumerated so that leftovers line up with frame boundaries) followed by a clean reopen; non-trivial = distinct (call kind, API call it hit, effect, persistence) classes that reached the final reopen",
+	c.Rule("for each generated adaptive workload the golden run numbers every VFS/MetaStore call; the workload is then re-executed once per (call, before-effect | after-effect (the write/sync/create/delete/commit happened but an error is returned), once | sticky within the call | persistent over the next 1-4 API calls) with that call failing, continues with further successful operations, and ends with a clean reopen; oracle: in-process acknowledged entries intact and failed appends invisible after every step, after the reopen the state equals the model under some applied/not-applied assignment of the calls that returned errors; thorough adds pairs of failing calls; plus directed scripts of shrinking retries (two StoreLogs calls for the same indexes fail on Sync / WriteAt, a third, shorter one succeeds; payload sizes enumerated so that leftovers line up with frame boundaries) followed by a clean reopen, and of large batches (70 KiB - 3 MiB, as the first batch of a WAL, the first of a segment, or later; WriteAt / Sync failing before or after effect; retried unchanged; optional small follow-ups) followed by a clean reopen; non-trivial = distinct (call kind, API call it hit, effect, persistence) classes that reached the final reopen",
 		"faulted_runs", "fault_classes")
 	c.Assume("simmeta commits are atomic; an error from CommitState/SetStable 'after effect' means the commit is durable", "refusal of further writes after a fault is not counted against the property")
 	if c.Replay != "" {
@@ -621,6 +621,7 @@ func runC10(c *evid.Ctx) {
 	close(jobs)
 	wg.Wait()
 	c10ShrinkingRetries(c)
+	c10LargeBatches(c)
 	_ = errors.Is
 }
 
@@ -738,6 +739,151 @@ func c10ShrinkingRetries(c *evid.Ctx) {
 				c.Violation("C10:shrinking-retries:after-reopen:"+f.name, fmt.Sprintf("two StoreLogs calls failed (%s), a shorter one for the same index succeeded; after a clean reopen the log is not the acknowledged entries: %s", f.name, d), replay)
 			}
 			drv.CloseWAL(w2)
+		}
+	}
+}
+
+// c10LargeBatches: the commit buffer is a different object above 64 KiB and above 1 MiB
+// (grown, possibly not retained). A large batch - as the very first batch of a WAL, as the
+// first batch of a segment after a rotation, or later in a segment - fails once or twice on
+// its WriteAt or its Sync (before or after the effect), is retried unchanged and succeeds;
+// optionally three small batches follow. In the running process and after a clean reopen
+// the log must be exactly the acknowledged entries.
+func c10LargeBatches(c *evid.Ctx) {
+	type fk struct {
+		kind  simfs.Kind
+		after bool
+		name  string
+	}
+	faults := []fk{{simfs.KSync, false, "Sync-before"}, {simfs.KSync, true, "Sync-after"}, {simfs.KWriteAt, false, "WriteAt-before"}, {simfs.KWriteAt, true, "WriteAt-after"}}
+	shapes := []struct {
+		name  string
+		sizes []int
+	}{
+		{"1x70KiB", []int{70 << 10}},
+		{"1x200KiB", []int{200 << 10}},
+		{"1x1.2MiB", []int{1200 << 10}},
+		{"4x400KiB", []int{400 << 10, 400 << 10, 400 << 10, 400 << 10}},
+		{"small+3MiB", []int{100, 3 << 20}},
+	}
+	positions := []string{"first-of-wal", "first-of-segment", "later-in-segment"}
+	nfails := []int{1}
+	if !quick(c) {
+		nfails = []int{1, 2}
+	}
+	sem := make(chan struct{}, 8)
+	var wg sync.WaitGroup
+	defer wg.Wait()
+	for _, seg := range []int{8 << 20, 64 << 10} {
+		for _, pos := range positions {
+			for _, sh := range shapes {
+				for _, f := range faults {
+					for _, nf := range nfails {
+						for _, follow := range []int{0, 3} {
+							seg, pos, sh, f, nf, follow := seg, pos, sh, f, nf, follow
+							sem <- struct{}{}
+							wg.Add(1)
+							go func() {
+								defer func() { <-sem; wg.Done() }()
+								replay := map[string]any{"scenario": "large-batch", "seg_size": seg, "position": pos, "shape": sh.name, "fault": f.name, "failures": nf, "followups": follow}
+								disk := simfs.New(simfs.Strict)
+								h := &c10NextN{kind: f.kind, after: f.after}
+								disk.SetHook(h)
+								w, err := drv.OpenSim(disk, drv.Cfg{SegSize: seg})
+								if err != nil {
+									c.Violation("C10:open", err.Error(), nil)
+									return
+								}
+								l := model.NewLog()
+								next := uint64(1)
+								small := func(n int, tag string) bool {
+									for i := 0; i < n; i++ {
+										lg := &raft.Log{Index: next, Term: 2, Type: raft.LogCommand, Data: bytes.Repeat([]byte{'s'}, 40+i), Extensions: []byte(tag)}
+										if r := drv.Apply(w, gen.Op{Kind: "append", Logs: []*raft.Log{lg}}); r.Err != nil {
+											c.Violation("C10:large-batch:append", fmt.Sprintf("fault-free append failed: %v", r.Err), replay)
+											return false
+										}
+										l.Append([]*raft.Log{lg}, int(next), true)
+										next++
+									}
+									return true
+								}
+								ok := true
+								switch pos {
+								case "first-of-segment":
+									// one entry as large as the segment: it seals it, the next batch opens a new file
+									big := &raft.Log{Index: next, Term: 2, Data: bytes.Repeat([]byte{'f'}, seg)}
+									if r := drv.Apply(w, gen.Op{Kind: "append", Logs: []*raft.Log{big}}); r.Err != nil {
+										ok = false
+									} else {
+										l.Append([]*raft.Log{big}, int(next), true)
+										next++
+									}
+								case "later-in-segment":
+									ok = small(2, "pre")
+								}
+								if !ok {
+									drv.CloseWAL(w)
+									return
+								}
+								var batch []*raft.Log
+								for i, sz := range sh.sizes {
+									d := make([]byte, sz)
+									for k := range d {
+										d[k] = byte('A' + (k+i)%23)
+									}
+									batch = append(batch, &raft.Log{Index: next + uint64(i), Term: 3, Type: raft.LogCommand, Data: d})
+								}
+								h.n = nf
+								failed := 0
+								var lastErr error
+								for try := 0; try < nf+2; try++ {
+									r := drv.Apply(w, gen.Op{Kind: "append", Logs: batch})
+									lastErr = r.Err
+									if r.Err == nil {
+										break
+									}
+									failed++
+								}
+								h.n = 0
+								c.Count("large_batch_scripts", 1)
+								c.Count("faulted_runs", 1)
+								c.Distinct("fault_classes", fmt.Sprintf("large-batch|%s|%s|%s|seg=%d|failed=%d", f.name, pos, sh.name, seg, failed))
+								var alt *model.Log // the failed batch applied in full: legal after the reopen
+								if lastErr != nil {
+									// refusing further writes after a fault is allowed; what was acknowledged must still be there
+									c.Count("large_batch_retry_refused", 1)
+									alt = l.Clone()
+									alt.Append(batch, int(next), true)
+								} else {
+									l.Append(batch, int(next), true)
+									next += uint64(len(batch))
+									if follow > 0 && !small(follow, "post") {
+										drv.CloseWAL(w)
+										return
+									}
+								}
+								probes := []uint64{1, 2, 3, 4, 5, 6, 7, 8, 9}
+								if d := l.Diff(drv.Observe(w, model.ProbeSet(probes, l))); d != "" {
+									c.Violation("C10:large-batch:in-process:"+f.name, fmt.Sprintf("%s batch (%s, %s) failed %d time(s) and was retried; the running process shows: %s", sh.name, pos, f.name, failed, d), replay)
+								}
+								drv.CloseWAL(w)
+								disk.SetHook(nil)
+								w2, err := drv.OpenSim(disk, drv.Cfg{SegSize: seg})
+								if err != nil {
+									c.Violation("C10:large-batch:reopen:"+f.name, fmt.Sprintf("%s batch (%s, %s) failed %d time(s), the retry was acknowledged (err=%v); clean reopen failed: %v", sh.name, pos, f.name, failed, lastErr, err), replay)
+									return
+								}
+								obs2 := drv.Observe(w2, model.ProbeSet(probes, l))
+								if d := l.Diff(obs2); d != "" && (alt == nil || alt.Diff(obs2) != "") {
+									c.Violation("C10:large-batch:after-reopen:"+f.name, fmt.Sprintf("%s batch (%s, %s) failed %d time(s), the retry was acknowledged (err=%v); after a clean reopen the log is not the acknowledged entries: %s", sh.name, pos, f.name, failed, lastErr, d), replay)
+								}
+								drv.CloseWAL(w2)
+							}()
+						}
+					}
+				}
+			}
 		}
 	}
 }
